@@ -643,11 +643,11 @@ func coldAlloc(e *ev.Env, c *ev.Case, mk func() *fiber.App, input []byte) (uint6
 // realContentLength rewrites the Content-Length of the first request in raw to the number of
 // body bytes that actually follow its head (false: no such header, or chunked).
 func realContentLength(raw []byte) ([]byte, bool) {
-	end := bytes.Index(raw, []byte("\r\n\r\n"))
-	if end < 0 || indexFold(raw[:end+2], "chunked") >= 0 {
+	end, sep := headEnd(raw)
+	if end < 0 || indexFold(raw[:end], "chunked") >= 0 {
 		return nil, false
 	}
-	real := " " + itoa(len(raw)-(end+4))
+	real := " " + itoa(len(raw)-(end+sep))
 	out := append([]byte(nil), raw[:end]...)
 	found := false
 	for off := 0; ; { // every Content-Length field of the head
@@ -668,6 +668,19 @@ func realContentLength(raw []byte) ([]byte, bool) {
 		return nil, false
 	}
 	return append(out, raw[end:]...), true
+}
+
+// headEnd finds the empty line that ends the first request head the way fasthttp reads it (lines
+// end at LF, a CR before it is optional): offset of the line break that ends the last header line
+// and the length of the break + empty line.
+func headEnd(raw []byte) (int, int) {
+	best, sep := -1, 0
+	for _, m := range []string{"\r\n\r\n", "\n\r\n", "\n\n"} {
+		if i := bytes.Index(raw, []byte(m)); i >= 0 && (best < 0 || i < best) {
+			best, sep = i, len(m)
+		}
+	}
+	return best, sep
 }
 
 // dechunk rewrites the first request in raw from chunked transfer coding to Content-Length framing
@@ -775,6 +788,40 @@ func allocSite(e *ev.Env, c *ev.Case, mk func() *fiber.App, input []byte, limit,
 	if e.Verbose {
 		println("allocSite: all components off ->", base, "threshold", threshold)
 	}
+	announcedFits := func() bool { // the allocation is about the size a Content-Length / chunk line announces
+		a := declaredBody(input)
+		return a >= 64<<10 && total+total/8 >= a && total <= 2*a+limit
+	}
+	if base > limit+64<<10 {
+		// the request is over budget with every known component switched off: removal of a
+		// component proves nothing here; only the size of the allocation is evidence
+		if announcedFits() {
+			if indexFold(input, "chunked") >= 0 {
+				return "announced-chunk-size"
+			}
+			return "announced-content-length"
+		}
+		return "unattributed"
+	}
+	// sufficient: the component alone (every other one switched off) still costs the request dearly
+	sufficient := func(name string) bool {
+		alt := input
+		for _, g := range comps {
+			if g.name == name {
+				continue
+			}
+			if a2, ok := g.alt(alt); ok {
+				alt = a2
+			}
+		}
+		d, p := coldAlloc(e, c, mk, alt)
+		if e.Verbose {
+			println("allocSite: only", name, "->", d)
+		}
+		// over budget alone, or at least a substantial part of what the full request costs above
+		// the bare one (another component may multiply it: a typed body is read several times)
+		return !p && (d > limit || (total > base && d > base && d-base >= (total-base)/8))
+	}
 	var explains, full []string
 	var present, irrelevant []comp
 	for _, f := range comps {
@@ -863,7 +910,9 @@ func allocSite(e *ev.Env, c *ev.Case, mk func() *fiber.App, input []byte, limit,
 		// another component may merely multiply the cost (a typed body is read several times)
 		explains = full
 	}
+	combined := false
 	if len(explains) == 0 && len(present) > 1 {
+		combined = true
 		// Several components may contribute at once (an inflated request body AND the working
 		// memory of a compressed response): neutralise them pairwise, finally all together. The
 		// first set that brings the request within the threshold explains it.
@@ -918,6 +967,29 @@ func allocSite(e *ev.Env, c *ev.Case, mk func() *fiber.App, input []byte, limit,
 		case len(sites) == 1, len(sites) > 1 && allRecorded:
 			explains = sites[:1]
 		}
+	}
+	// size evidence takes precedence: a buffer of the announced size is the announcement's
+	if announcedFits() {
+		for _, f := range present {
+			if strings.HasPrefix(f.name, "announced-") {
+				if alt, ok := f.alt(input); ok {
+					if d, p := coldAlloc(e, c, mk, alt); !p && d <= threshold {
+						return f.name
+					}
+				}
+			}
+		}
+	}
+	// necessity (removal helps) is not enough: the component must also be sufficient on its own
+	// - unless it was named by a combination, where it is not by construction
+	if len(explains) >= 1 && !combined {
+		var kept []string
+		for _, x := range explains {
+			if x == "response-compression" || sufficient(x) {
+				kept = append(kept, x)
+			}
+		}
+		explains = kept
 	}
 	// "typed-body" is implied by the more specific multipart component
 	if len(explains) == 2 && explains[0] == "multipart-form" && explains[1] == "typed-body" {
